@@ -425,6 +425,9 @@ def fam_conc():
         dict(toks=[tok("start", "p", (("style", "color: rgb(1,2,3); font: italic bold 12px serif"),)), T("p"), tok("end", "p")]),
         dict(toks=[tok("start", "a", (("href", "ftp://f/x"),)), T("f"), tok("end", "a"), tok("start", "a", (("href", "tel:+1"),)), T("t"), tok("end", "a")]),
         dict(toks=[tok("start", "custom-x", (("class", "abc"), ("style", "color: green; font-size: 12px"))), T("one"), tok("end", "custom-x")]),
+        # matched by one of the two style-carrying patterns only: whichever pattern the map yields first must not matter
+        dict(toks=[tok("start", "custom-y", (("style", "color: red; position: fixed"),)), T("y"), tok("end", "custom-y"),
+                   tok("start", "b-x", (("style", "color: green; position: fixed"),)), T("z"), tok("end", "b-x")]),
         dict(toks=[tok("start", "object"), T("hidden"), tok("end", "object")]),
         dict(toks=[tok("start", "a", (("href", "http://e.com/"),)), T("two"), tok("end", "a")]),
         dict(toks=[tok("start", "a"), tok("start", "b"), tok("end", "a")]),
